@@ -154,14 +154,17 @@ W_NoBurst        == ~(Quiescent /\ \E i \in VReqs : Len(log[i].cell.prints) >= 3
 W_NoQueuedBurst  == Len(hq) < 3                                                             \* ... that was waiting in the queue at once
 WNames == <<"W_NoLateStdout", "W_NoForged", "W_NoSurvivor", "W_NoPipelining", "W_NoSecondClient", "W_NoErrorReply",
             "W_CounterStuck", "W_NoUnstored", "W_NoDeadSession">>
-WVals  == <<W_NoLateStdout, W_NoForged, W_NoSurvivor, W_NoPipelining, W_NoSecondClient, W_NoErrorReply,
-            W_CounterStuck, W_NoUnstored, W_NoDeadSession>>
+\* (a predicate is evaluated only until it has been seen violated once; a tuple of all of them would be evaluated
+\* in full at every use)
+WVal(k) == CASE k = 1 -> W_NoLateStdout [] k = 2 -> W_NoForged [] k = 3 -> W_NoSurvivor [] k = 4 -> W_NoPipelining
+             [] k = 5 -> W_NoSecondClient [] k = 6 -> W_NoErrorReply [] k = 7 -> W_CounterStuck [] k = 8 -> W_NoUnstored
+             [] k = 9 -> W_NoDeadSession
 ASSUME \A k \in 1..Len(WNames) : TLCSet(k, FALSE)
-TrackW == \A k \in 1..Len(WNames) : IF ~WVals[k] /\ ~TLCGet(k) THEN TLCSet(k, TRUE) ELSE TRUE
+TrackW == \A k \in 1..Len(WNames) : IF TLCGet(k) THEN TRUE ELSE IF ~WVal(k) THEN TLCSet(k, TRUE) ELSE TRUE
 WitnessesSeen == PrintT("INFO " \o ToJson([unseen |-> { WNames[k] : k \in { j \in 1..Len(WNames) : ~TLCGet(j) } }]))
 \* the same for the burst family (a run of its own: Tags with "burst"; CONSTRAINT TrackWB, POSTCONDITION WitnessesSeenB)
-WNamesB == <<"W_NoBurst", "W_NoQueuedBurst", "W_NoPipelining">>
-WValsB  == <<W_NoBurst, W_NoQueuedBurst, W_NoPipelining>>
-TrackWB == \A k \in 1..Len(WNamesB) : IF ~WValsB[k] /\ ~TLCGet(k) THEN TLCSet(k, TRUE) ELSE TRUE
+WNamesB == <<"W_NoBurst", "W_NoQueuedBurst">>
+WValB(k) == CASE k = 1 -> W_NoBurst [] k = 2 -> W_NoQueuedBurst
+TrackWB == \A k \in 1..Len(WNamesB) : IF TLCGet(k) THEN TRUE ELSE IF ~WValB(k) THEN TLCSet(k, TRUE) ELSE TRUE
 WitnessesSeenB == PrintT("INFO " \o ToJson([unseen |-> { WNamesB[k] : k \in { j \in 1..Len(WNamesB) : ~TLCGet(j) } }]))
 =============================================================================
